@@ -456,6 +456,33 @@ func checkC14Fault(c C14Case, base *sessRun, info *caseInfo) (*Violation, []stri
 	if res.Crash != "" {
 		return viol14("fault-crash", p, e, "process panicked under %s: %s at %s", kind, res.Crash, res.CrashAt), log, info
 	}
+	// a program may legitimately mask a failed call (retry it, fall back to
+	// another way of doing the same thing): then everything observable must be
+	// exactly what the fault-free run produced
+	masked := false
+	if kind != simos.FStdinEOF && res.Code == base.Res[i].Code && res.Code != 2 && string(res.Stdout) == string(base.Res[i].Stdout) {
+		if same, _ := fsEqual(flt.FSPost[i], base.FSPost[i]); same {
+			masked = true
+			stats.probe("fault-masked-by-retry-or-fallback")
+		}
+	}
+	switch {
+	case masked:
+	default:
+		return checkC14FaultOutcome(c, base, flt, fs, info, kind)
+	}
+	return nil, log, info
+}
+
+// checkC14FaultOutcome judges a process in which an injected failure fired and
+// was not masked.
+func checkC14FaultOutcome(c C14Case, base, flt *sessRun, fs *simos.FS, info *caseInfo, kind string) (*Violation, []string, *caseInfo) {
+	s := c.S
+	i := c.V.Proc
+	res := flt.Res[i]
+	p := s.Procs[i]
+	e := base.Exp[i]
+	log := flt.Log
 	switch kind {
 	case simos.FReadEACCES, simos.FReadENOENT, simos.FReadEIO, simos.FStdinEIO:
 		if res.Code != 2 {
